@@ -186,6 +186,13 @@ func VerifC14ValidatorMsgs() {
 		if verr == nil {
 			_, _ = srv.OptOut(e.ctx, m)
 		}
+	case 3:
+		// key assignment: the stateless check binds signer and validator (the handler's effect on
+		// the key-assignment state is VerifC05AssignStep's subject)
+		m := types.MsgAssignConsumerKey{ConsumerId: cid, ProviderAddr: provAddr, Signer: signer,
+			ConsumerKey: `{"@type":"/cosmos.crypto.ed25519.PubKey","key":"Ui5Gf1+mtWUdH8u3xlmzdKID+F3PK0sfXZ73GZ6q6is="}`}
+		verr := m.ValidateBasic()
+		vh.Assert((verr == nil) == (signerOf == named), "C14.val.key-assignment-accepted-only-from-the-validators-operator")
 	default:
 		rate := math.LegacyNewDecWithPrec(3, 1)
 		m := &types.MsgSetConsumerCommissionRate{ConsumerId: cid, ProviderAddr: provAddr, Signer: signer, Rate: rate}
@@ -202,4 +209,54 @@ func VerifC14ValidatorMsgs() {
 	vh.Assert(e.k.IsOptedIn(e.ctx, cid, pOther) == f.opted[other], "C14.val.other-validators-optin-untouched")
 	_, hasRate := e.k.GetConsumerCommissionRate(e.ctx, cid, pOther)
 	vh.Assert(hasRate == hadRate, "C14.val.other-validators-commission-untouched")
+}
+
+// VerifC14CreateAndParams: MsgCreateConsumer never creates a Top-N consumer
+// (whoever submits it, the authority included) and makes the submitter the
+// owner of a registered / initialized consumer; MsgUpdateParams from anybody
+// but the authority is rejected and changes nothing.
+func VerifC14CreateAndParams() {
+	e := newVEnv(1)
+	e.k.accountKeeper = vAccountKeeper{}
+	p := vParams(100, 600)
+	e.k.SetParams(e.ctx, p)
+	e.k.setConsumerId(e.ctx, 3)
+	sender := vh.ConcretizeInt(vh.Int("sender"), 0, 2)
+	topN := uint32(vh.ConcretizeInt(vh.Int("topN"), 0, 2) * 50) // 0, 50, 100
+	withPSP := vh.ConcretizeInt(vh.Int("with_power_shaping"), 0, 1) == 1
+	msg := &types.MsgCreateConsumer{Submitter: vSender(sender), ChainId: "chainone-1", Metadata: types.ConsumerMetadata{Name: "n", Description: "d", Metadata: "m"}}
+	if withPSP {
+		msg.PowerShapingParameters = &types.PowerShapingParameters{Top_N: topN, ValidatorSetCap: 7}
+	}
+	srv := msgServer{Keeper: &e.k}
+	cctx, write := e.ctx.CacheContext()
+	resp, err := srv.CreateConsumer(cctx, msg)
+	if err == nil {
+		write()
+	}
+	vh.Reach("after-create")
+	vh.InfoErr(err)
+	vh.Assert((err != nil) == (withPSP && topN != 0), "C14.create.rejected-iff-topN-requested")
+	if err == nil {
+		cid := resp.ConsumerId
+		vh.Assert(cid == "3", "C14.create.next-consumer-id")
+		owner, oerr := e.k.GetConsumerOwnerAddress(e.ctx, cid)
+		vh.Assert(oerr == nil && owner == vSender(sender), "C14.create.submitter-becomes-owner")
+		psp, perr := e.k.GetConsumerPowerShapingParameters(e.ctx, cid)
+		vh.Assert(perr == nil && psp.Top_N == 0, "C14.create.opt-in-consumer-only")
+		vh.Assert(vh.Implies(withPSP, psp.ValidatorSetCap == 7), "C14.create.power-shaping-recorded")
+		vh.Assert(e.k.GetConsumerPhase(e.ctx, cid) == types.CONSUMER_PHASE_REGISTERED, "C14.create.registered")
+	} else {
+		n, found := e.k.GetConsumerId(e.ctx)
+		vh.Assert(found && n == 3, "C14.create.rejection-changes-nothing")
+		vh.Assert(e.k.GetConsumerPhase(e.ctx, "3") == types.CONSUMER_PHASE_UNSPECIFIED, "C14.create.rejection-changes-nothing")
+	}
+	// provider parameters: only the authority
+	if sender != 2 {
+		p2 := vParams(50, 300)
+		_, perr := srv.UpdateParams(e.ctx, &types.MsgUpdateParams{Authority: vSender(sender), Params: p2})
+		vh.Assert(perr != nil, "C14.params.only-authority")
+		got := e.k.GetParams(e.ctx)
+		vh.Assert(got.MaxProviderConsensusValidators == 100 && got.BlocksPerEpoch == 600, "C14.params.rejected-update-changes-nothing")
+	}
 }
